@@ -12,6 +12,11 @@ repo = os.environ.get("HZ_REPO", "/repo")
 muts = json.load(open(os.path.join(here, "selftest", "mutations.json")))
 sel = sys.argv[1:]
 ok = bad = 0
+# build once and run from a private copy so that editing the checker meanwhile is harmless
+import shutil, tempfile
+subprocess.run("cd %s/checker && GOFLAGS=-mod=mod GOPROXY=off GOSUMDB=off GOTOOLCHAIN=local GOWORK=off CGO_ENABLED=0 go build -o %s/bin/hzcheck ./cmd/hzcheck" % (here, here), shell=True, check=True)
+tmpbin = tempfile.mkdtemp(prefix="hzselftest") + "/hzcheck"
+shutil.copy(os.path.join(here, "bin", "hzcheck"), tmpbin)
 if subprocess.run(["git", "-C", repo, "status", "--porcelain", "--untracked-files=no"], capture_output=True, text=True).stdout.strip():
     sys.exit("refusing: /repo has uncommitted changes")
 for m in muts:
@@ -29,7 +34,7 @@ for m in muts:
         b = subprocess.run("cd %s && GOFLAGS=-mod=mod go build ./... 2>&1 | tail -5" % (repo if not m.get("hz") else repo + "/cmd/hz"), shell=True, capture_output=True, text=True)
         if b.stdout.strip():
             raise RuntimeError("%s: mutant does not compile: %s" % (m["id"], b.stdout))
-        r = subprocess.run([os.path.join(here, "check"), m["property"], m.get("tier", "quick")], capture_output=True, text=True, env=dict(os.environ, HZ_NOEVIDENCE="1"))
+        r = subprocess.run([tmpbin, "-property", m["property"], "-tier", m.get("tier", "quick")], capture_output=True, text=True, env=dict(os.environ, HZ_NOEVIDENCE="1", HZ_VERIF=here, GOFLAGS="-mod=mod", GOPROXY="off", GOSUMDB="off", GOTOOLCHAIN="local", GOWORK="off"))
         out = r.stdout
         hit = [l for l in out.splitlines() if l.startswith("FAIL ") and m["expect"] in l]
         if r.returncode == 1 and hit and "VIOLATION property=%s" % m["property"] in out:
@@ -43,5 +48,6 @@ for m in muts:
         print("ERROR   ", ex)
     finally:
         subprocess.run(["git", "-C", repo, "checkout", "--", "."], check=True)
+shutil.rmtree(os.path.dirname(tmpbin), ignore_errors=True)
 print("selftest: caught=%d missed/error=%d" % (ok, bad))
 sys.exit(1 if bad else 0)
